@@ -519,10 +519,13 @@ static void obs_case(int op, int cap) {
       int tw = vh_randint(w0, wl);
       int lo = tw * 64, hi = (tw == wl) ? n - 1 : lo + 63;
       if (tw == w0) lo = sc;
+      /* a quarter of the cases: the only candidates sit in the LAST (or the first) bit of the target word */
+      int edge = vh_randint(0, 3) == 0 ? (vh_randint(0, 2) ? hi : lo) : -1;
       for (int i = sr; i < m; i++) {
         int cnt = vh_randint(0, 2);
+        if (edge >= 0 && i == m - 1) cnt = 1;
         for (int t = 0; t < cnt; t++) {
-          int c = vh_randint(0, 2) ? vh_randint(lo, hi) : (vh_randint(0, 1) ? lo + (sc % 64 <= hi - lo ? sc % 64 : 0) : vh_randint(lo, hi));
+          int c = edge >= 0 ? edge : vh_randint(0, 2) ? vh_randint(lo, hi) : (vh_randint(0, 1) ? lo + (sc % 64 <= hi - lo ? sc % 64 : 0) : vh_randint(lo, hi));
           if (c >= lo && c <= hi) A->data[(size_t)i * A->rowstride + c / 64] |= (word)1 << (c % 64);
         }
         for (int c = hi + 1; c < n; c++) if (vh_randint(0, 3) == 0) A->data[(size_t)i * A->rowstride + c / 64] |= (word)1 << (c % 64);
